@@ -1216,16 +1216,14 @@ class ItemSpaceParent(ItemFactoryImpl, BaseNamespaceReferrer, HasFormula):
             if self.formula is not None:
                 self.del_formula()
         else:
-            if self.formula is None:
-                if isinstance(formula, ParamFunc):
-                    self.formula = formula
-                else:
-                    self.formula = ParamFunc(formula, name="_formula")
-                self.altfunc = BoundFunction(self)
-                self.altfunc.notify()
-            else:
+            if not isinstance(formula, ParamFunc):
+                # Build it first: a malformed formula must change nothing
+                formula = ParamFunc(formula, name="_formula")
+            if self.formula is not None:
                 self.del_formula()
-                self.set_formula(formula)
+            self.formula = formula
+            self.altfunc = BoundFunction(self)
+            self.altfunc.notify()
 
     def del_formula(self):
         """Delete formula
